@@ -294,15 +294,16 @@ class Materialised:
         n_inh = int(spec.get("inherit") or 0)
         if n_inh and spec["flavour"] != "namedtuple":
             bfl = spec.get("base_flavour") or spec["flavour"]
-            self._declare_one(spec, spec["name"] + "_Base", bfl, spec["fields"][:n_inh], (), None)
-            self._declare_one(spec, spec["name"], spec["flavour"], spec["fields"][n_inh:], spec["fields"][:n_inh],
-                              spec["name"] + "_Base")
+            # `spec["base_mod"]`: the base class lives in another module (its annotations are resolved there)
+            bmod = spec.get("base_mod", spec["mod"])
+            self._declare_one(spec, spec["name"] + "_Base", bfl, spec["fields"][:n_inh], (), None, bmod)
+            bexpr = spec["name"] + "_Base" if bmod == spec["mod"] else f"M{bmod}.{spec['name']}_Base"
+            self._declare_one(spec, spec["name"], spec["flavour"], spec["fields"][n_inh:], spec["fields"][:n_inh], bexpr, spec["mod"])
         else:
-            self._declare_one(spec, spec["name"], spec["flavour"], spec["fields"], (), None)
+            self._declare_one(spec, spec["name"], spec["flavour"], spec["fields"], (), None, spec["mod"])
         self.classes[(spec["mod"], spec["name"])] = self.modules[spec["mod"]].__dict__[spec["name"]]
 
-    def _declare_one(self, spec, name, fl, fields, inherited, base):
-        mod = spec["mod"]
+    def _declare_one(self, spec, name, fl, fields, inherited, base, mod):
         future = bool(spec.get("future"))
         self._future[mod] = self._future.get(mod, False) or future
         lines = []
@@ -1231,6 +1232,8 @@ def class_specs(draw, names, *, max_depth, hashable, open_classes, kw):
         # names its own fields in __slots__, a TypedDict may sit on a base of the other totality)
         n = draw(st.integers(1, len(fields)))
         spec["inherit"] = n
+        if kw["mods"] > 1 and draw(st.booleans()):
+            spec["base_mod"] = draw(st.integers(0, kw["mods"] - 1))
         if fl.startswith("typeddict") and draw(st.booleans()):
             other = "typeddict_partial" if fl == "typeddict" else "typeddict"
             spec["base_flavour"] = other
@@ -1267,6 +1270,21 @@ def repeated_generic_specs(draw, mods=2):
         if shape == "list":
             return {"k": "list", "sp": "list", "a": [outer_c]}
         return {"k": "tuple", "sp": "tuple", "a": [inner, la] if draw(st.booleans()) else [la, inner]}
+    if draw(st.integers(0, 5)) == 0:
+        # a field inherited from a base class of another module, annotated (as text) with a class name that the
+        # subclass's module binds to a different class
+        la, lb = draw(leaf), draw(leaf)
+        fl = draw(st.sampled_from(["dataclass", "plain", "dc_slots", "slots", "dc_kwonly"]))
+        ma, mb = draw(st.sampled_from([(0, 1), (1, 0)]))
+        there = {"k": "class", "name": "Leaf", "mod": ma, "flavour": draw(st.sampled_from(["dataclass", "namedtuple", "plain"])), "future": True,
+                 "fields": [{"n": "v", "t": la}]}
+        here = {"k": "class", "name": "Leaf", "mod": mb, "flavour": draw(st.sampled_from(["dataclass", "namedtuple", "plain"])), "future": True,
+                "fields": [{"n": "v", "t": lb}, {"n": "w", "t": la}]}
+        child = {"k": "class", "name": names.fresh("Sub"), "mod": mb, "flavour": fl, "future": True, "inherit": 1, "base_mod": ma,
+                 "fields": [{"n": "leaf", "t": there}, {"n": "extra", "t": here}]}
+        shape = draw(st.sampled_from(["class", "list", "dict"]))
+        return child if shape == "class" else ({"k": "list", "sp": "list", "a": [child]} if shape == "list" else
+                                               {"k": "dict", "sp": "dict", "a": [S("str"), child]})
     kind = draw(st.sampled_from(["tuple", "list", "dict", "vtuple", "optional-list", "set"]))
     if kind == "tuple":
         g = {"k": "tuple", "sp": "tuple", "a": [draw(leaf) for _ in range(draw(st.integers(1, 3)))]}
